@@ -151,6 +151,12 @@ def apply_op(o, x, aux, aux2, mask):
         return x / torch.tensor(float(o["k"]), dtype=x.dtype)
     if op == "rmul":
         return o["k"] * x
+    if op == "mul_t1":
+        return x * torch.full(o["oshape"], float(o["k"]), dtype=x.dtype)
+    if op == "div_t1":
+        return x / torch.full(o["oshape"], float(o["k"]), dtype=x.dtype)
+    if op == "add_tensor":
+        return x + aux
     if op == "expand":
         return x.expand(2, *x.shape)
     if op == "cat":
@@ -214,6 +220,10 @@ def make_aux(o, cur, twin, salt):
     if qt == "qfloat8":
         qt = "qfloat8_e4m3fn"
     like = cur._scale.detach().clone() if curq else None
+    if kind == "scaled_self":
+        # a second operand DERIVED from the working tensor (for a quantized tensor it shares the payload object)
+        a = cur * 2
+        return a, (deq(a).clone() if isinstance(a, QTensor) else a.clone()), None, None
     if kind in ("same", "three") and isinstance(cur, QBytesTensor) and cur.axis is not None and list(cur._data.shape) == shape:
         # per-axis working tensor: a second operand with the same qtype and bit-identical per-axis scales
         vals = torch.tensor(lattice_values(shape, qt, salt + 1), dtype=torch.float64).reshape(shape)
